@@ -33,6 +33,7 @@ CORPUS = {
     "annotations-followed-by-blank-lines": "# summary: \"s\"\n\n\nlet a = num;\n# description: \"d\"\r\n\r\n\r\nlet b = str;\n// comment\n\n\n# tags: [x]\n\nres / on get -> <a>;\n\n\n",
     "many-lexical-errors-in-a-row": "let a = num;\n" + "§" * 300 + "\nlet b = str;\nres / on get -> <a>;\n",
     "many-lexical-errors-spread-out": "".join("let v%d = € num;\n" % i for i in range(120)) + "res / on get -> <v1>;\n",
+    "blank-inline-annotations": "let a = str ``;\nlet b = { 'p num ` ` } `\t`;\nlet c = num `title: t` `` ` `;\nres / on get -> <a> ``;\n",
     "optional-parts-left-out": 'use "m.oal" as m;\nlet a = m.;\nlet b = { \'x m. , \'y str };\nlet c = b.;\nres /p? on get -> <>;\nres / on get : -> <>;\nlet d = [ ] ;\nlet e = a :: ;\n',
 }
 
@@ -176,7 +177,7 @@ def check():
     ex = mirlib.executor([MS], max_paths=4000)
     outs = ex.run(f_tok, arg_names=["loc", "input"])
     mirlib.check_translator(o, ex, "tokenize")
-    n_ok = n_err = 0
+    n_ok = n_err = n_drop = 0
     kinds_ok = True
     for p in outs:
         if p.kind != "backedge":
@@ -200,8 +201,14 @@ def check():
             sp = [e for e in p.calls() if e[1] == "Span::new"]
             good = len(sp) == 1 and sp[0][2][1] == rng and any(t == sp[0][3] for t in ms.subterms(errs[0][2][1]))
             structural("tokenize: an error token is reported at the lexer's own range", good)
+        else:
+            # round 13: the lexer handed a token over and this iteration neither stores it nor reports it - its bytes
+            # would belong to no token and to no error (a hole in the tiling, a leaf missing from the tree)
+            n_drop += 1
         # an out-of-range number literal (fixed defect) is an error path too
     structural("tokenize: every token kind is stored with the lexer's own range, and its text is the slice of that range", kinds_ok and n_ok >= 10)
+    structural("tokenize: no iteration of the token loop drops what the lexer gave it (each stores a token or reports an error)", n_drop == 0,
+               "tokenize: %d path(s) through one iteration of the token loop neither store the token nor report an error" % n_drop)
     # ... and those ranges are offsets into the caller's text: the lexer runs over the `input` argument itself
     # (not a trimmed / normalised copy) and token texts are sliced from that same argument
     lex_ok = idx_ok = True
